@@ -125,6 +125,11 @@ def analyse_comb(ctx, fi: FuncInfo) -> Comb:
         cum, posn = pos[0], pos[1]
         if len(pos) > 2:
             c.side_ok = pos[2].op == "const" and pos[2].args[0] == "left"
+        # all teeth at once:  searchsorted(cum, [E(i) for i in range(S)])  is the loop  for i in range(S): searchsorted(cum, E(i))
+        pc = strip_wrappers(posn)
+        if pc.op == "comp" and len(pc.args) == 3 and pc.args[0] in ("list", "gen") and pc.args[2].op == "gen" and \
+                len(pc.args[2].args) == 1 and pc.args[1].op == "tuple" and len(pc.args[1].args) == 1:
+            posn = pc.args[1].args[0]
     else:
         f, in_axes, vargs = match_vmap(st)
         c.side_ok = len(vargs) == 2
@@ -184,8 +189,11 @@ def analyse_comb(ctx, fi: FuncInfo) -> Comb:
         c.problems.append("survivor weight is not ones(N) * (total / N)")
     # gathers / copies of walkers
     for e in ev.events:
-        if e.kind == "store" and len(e.data[1]) == 1:
-            var, (key,), val = e.data[0], e.data[1], e.data[2]
+        if e.kind == "store" and len(e.data[1]) >= 1 and all(
+                k_.op == "const" and isinstance(k_.args[0], str) for k_ in e.data[1][:-1]):
+            # buf[i] = ...   or   buffers["walkers_new"][i] = ...  (a dict of named buffers)
+            var = e.data[0] + "".join(f"[{k_.args[0]!r}]" for k_ in e.data[1][:-1])
+            key, val = e.data[1][-1], e.data[2]
             v = live_arm(val)
             if v.op == "getitem" and (v.args[1] is index_term or strip_wrappers(v.args[1]) is index_term or
                                       norm_iter(strip_wrappers(v.args[1])) is norm_iter(index_term)):
@@ -194,7 +202,15 @@ def analyse_comb(ctx, fi: FuncInfo) -> Comb:
                 # the buffer read by the gather must be the pre-reconfiguration one: if the loop that does the copying
                 # also stores into it, slot new_i may already hold a survivor (the comb index can be < i)
                 src = strip_wrappers(v.args[0])
-                if e.loops and any(z.op == "havoc" and len(z.args) > 1 and z.args[0] in {l_[0] for l_ in e.loops} for z in subterms(src)):
+                lids = {l_[0] for l_ in e.loops}
+                # name of the buffer that is read: a loop-carried variable, or a named entry of a loop-carried dict of buffers
+                sid = None
+                if src.op == "havoc" and src.args[0] in lids:
+                    sid = src.args[1]
+                elif src.op == "getitem" and src.args[1].op == "const" and isinstance(src.args[1].args[0], str) and \
+                        strip_wrappers(src.args[0]).op == "havoc" and strip_wrappers(src.args[0]).args[0] in lids:
+                    sid = f"{strip_wrappers(src.args[0]).args[1]}[{src.args[1].args[0]!r}]"
+                if sid is not None and sid == var:
                     c.inplace.append((e.line, var, show(src, maxdepth=2)[:60]))
     R = ev.result(fr)
     if R.op == "tuple" and len(R.args) == 2:
@@ -446,7 +462,7 @@ def mpi_rules(ctx):
 def _alloc_shape(t: T) -> Optional[str]:
     """Extent (first dimension / length) expression of an allocation reaching t through phis."""
     t = strip_wrappers(t)
-    for _ in range(8):
+    for _ in range(16):
         if t.op == "phi":
             a, b = strip_wrappers(t.args[1]), strip_wrappers(t.args[2])
             t = a if not is_const(a, None) else b
@@ -454,6 +470,17 @@ def _alloc_shape(t: T) -> Optional[str]:
             t = strip_wrappers(t.args[2])
         elif t.op == "havoc":
             t = strip_wrappers(t.args[2])
+        elif t.op == "setitem":
+            t = strip_wrappers(t.args[0])          # buf[...] = v  keeps the extent of buf
+        elif t.op == "getitem" and t.args[1].op == "const" and isinstance(t.args[1].args[0], str) and \
+                strip_wrappers(t.args[0]).op in ("loopout", "havoc", "phi"):
+            # an entry of a dict of buffers that a loop / branch passes through: the entry of what went in
+            b_ = strip_wrappers(t.args[0])
+            if b_.op == "phi":
+                a_, c_ = getitem(b_.args[1], t.args[1]), getitem(b_.args[2], t.args[1])
+                t = strip_wrappers(a_ if not is_const(strip_wrappers(b_.args[1]), None) else c_)
+            else:
+                t = strip_wrappers(getitem(b_.args[2], t.args[1]))
         else:
             break
     z = m_arrcall(t, "zeros", "ones", "empty")
